@@ -756,4 +756,259 @@ theorem sum_pairTerm_const (e f : Rat) (C : Name → Rat) (x : Slot) (hx : x ≠
         push_cast
         grind
 
+/-! ### marginal of a repacked stoichiometry -/
+
+/-- the isotopomers of `x` (with `n` positions) that are labelled at position `i` -/
+def labelledAt (x : Name) (n i : Nat) : List LName :=
+  ((patterns n).filter fun u => u.getD i false).map fun u => ⟨x, some u⟩
+
+theorem labelledAt_nodup (x : Name) (n i : Nat) : (labelledAt x n i).Nodup :=
+  nodup_map_inj (by intro a b h; simpa using h) ((patterns_nodup n).filter _)
+
+theorem assignLabel_mem_labelledAt (c x : Name) (b : Label) (n i : Nat) (hb : c = x → b.length = n) :
+    assignLabel c b ∈ labelledAt x n i ↔ c = x ∧ b.getD i false = true := by
+  unfold assignLabel labelledAt
+  constructor
+  · intro h
+    obtain ⟨u, hu, e⟩ := List.mem_map.mp h
+    simp only [List.mem_filter] at hu
+    by_cases hne : b = []
+    · subst hne; simp at e
+    · simp only [ne_eq, hne, not_false_eq_true, if_true, LName.mk.injEq, Option.some.injEq] at e
+      obtain ⟨rfl, rfl⟩ := e
+      exact ⟨rfl, hu.2⟩
+  · rintro ⟨rfl, hbit⟩
+    have hne : b ≠ [] := by intro e; subst e; simp at hbit
+    simp only [ne_eq, hne, not_false_eq_true, if_true]
+    exact List.mem_map.mpr ⟨b, List.mem_filter.mpr ⟨mem_patterns.mpr (hb rfl), hbit⟩, rfl⟩
+
+/-- bits of one block against its positions -/
+theorem count_zip_block (c x : Name) (i k : Nat) (b : Label) :
+    ((((List.range' k b.length).map (Slot.pos c)).zip b).count (Slot.pos x i, true))
+      = if c = x ∧ k ≤ i ∧ b.getD (i - k) false = true then 1 else 0 := by
+  induction b generalizing k with
+  | nil => simp
+  | cons a b ih =>
+    simp only [List.length_cons, List.range'_succ, List.map_cons, List.zip_cons_cons, List.count_cons,
+      ih (k + 1)]
+    by_cases hc : c = x
+    · subst hc
+      by_cases hk : k = i
+      · subst hk
+        have : ¬ (k + 1 ≤ k) := by omega
+        cases a <;> simp [this]
+      · by_cases hle : k + 1 ≤ i
+        · have e1 : i - k = (i - (k + 1)) + 1 := by omega
+          have hne : ¬ (Slot.pos c k = Slot.pos c i) := by intro h; injection h with _ h2; exact hk h2
+          have hle' : k ≤ i := by omega
+          rw [e1]
+          simp [hle, hle', hne]
+        · have hle' : ¬ k ≤ i := by omega
+          have hne : ¬ (Slot.pos c k = Slot.pos c i) := by intro h; injection h with _ h2; exact hk h2
+          simp [hle, hle', hne, hk]
+    · have hne : ¬ (Slot.pos c k = Slot.pos x i) := by intro h; injection h with h1 _; exact hc h1
+      simp [hc, hne]
+
+/-- among names built from full blocks, the isotopomers of `x` labelled at `i` are counted by the
+    flat positions `(x, i)` whose bit is set -/
+theorem filter_labelledAt (lv : List (Name × Nat)) (cs : List Name) (bl : List Label)
+    (hlen : bl.length = cs.length)
+    (hfull : ∀ p ∈ cs.zip bl, p.2.length = labelsOf lv p.1) (x : Name) (i : Nat) :
+    ((assignLabels cs bl).filter fun y => decide (y ∈ labelledAt x (labelsOf lv x) i)).length
+      = ((slotsFlat lv cs).zip bl.flatten).count (Slot.pos x i, true) := by
+  induction cs generalizing bl with
+  | nil => simp [assignLabels, slotsFlat]
+  | cons c cs ih =>
+    cases bl with
+    | nil => simp at hlen
+    | cons b bl =>
+      simp only [List.length_cons, Nat.add_right_cancel_iff] at hlen
+      have hb : b.length = labelsOf lv c := hfull (c, b) (by simp)
+      have ih' := ih bl hlen (fun p hp => hfull p (by simp [hp]))
+      simp only [assignLabels, List.zipWith_cons_cons] at ih' ⊢
+      rw [slotsFlat_cons, List.flatten_cons,
+        List.zip_append (by simp [hb]), List.count_append, ← ih', List.filter_cons]
+      have hblock := count_zip_block c x i 0 b
+      rw [hb, ← List.range_eq_range'] at hblock
+      rw [hblock]
+      have hmem := assignLabel_mem_labelledAt c x b (labelsOf lv x) i (by intro e; rw [hb, e])
+      have hcond : (c = x ∧ 0 ≤ i ∧ b.getD (i - 0) false = true) ↔ (c = x ∧ b.getD i false = true) := by
+        simp
+      by_cases h : c = x ∧ b.getD i false = true
+      · have hin : assignLabel c b ∈ labelledAt x (labelsOf lv x) i := hmem.mpr h
+        rw [if_pos (hcond.mpr h)]
+        simp only [hin, decide_true, if_true, List.length_cons]
+        omega
+      · have hnin : assignLabel c b ∉ labelledAt x (labelsOf lv x) i := fun hm => h (hmem.mp hm)
+        rw [if_neg (fun hh => h (hcond.mp hh))]
+        simp only [hnin, decide_false, Bool.false_eq_true, if_false]
+        omega
+
+
+
+theorem sum_zip_eq_range {α β} (A : List α) (B : List β) (da : α) (db : β) (F : α → β → Rat)
+    (h : A.length = B.length) :
+    ((A.zip B).map fun sp => F sp.1 sp.2).sum
+      = ((List.range A.length).map fun q => F (A.getD q da) (B.getD q db)).sum := by
+  induction A generalizing B with
+  | nil => simp
+  | cons a A ih =>
+    cases B with
+    | nil => simp at h
+    | cons b B =>
+      simp only [List.length_cons, Nat.add_right_cancel_iff] at h
+      simp only [List.zip_cons_cons, List.map_cons, List.sum_cons, List.length_cons,
+        List.range_succ_eq_map, List.map_map, ih B h]
+      rfl
+
+theorem sum_range_extend (n k : Nat) (G : Nat → Rat) (h : ∀ q, n ≤ q → G q = 0) :
+    ((List.range (n + k)).map G).sum = ((List.range n).map G).sum := by
+  rw [List.range_add, List.map_append, List.sum_append]
+  have : ((List.range k).map (fun x => n + x)).map G = (List.range k).map fun _ => (0 : Rat) := by
+    rw [List.map_map]
+    apply List.map_congr_left
+    intro a _
+    exact h _ (Nat.le_add_right n a)
+  rw [this, sum_map_zero]; grind
+
+theorem count_zip_eq_sum (A : List Slot) (B : Label) (x : Slot) :
+    (((A.zip B).count (x, true) : Nat) : Rat)
+      = ((List.range A.length).map fun j =>
+          if A.getD j Slot.ext = x then ind (B.getD j false) else 0).sum := by
+  induction A generalizing B with
+  | nil => simp
+  | cons a A ih =>
+    cases B with
+    | nil =>
+      have : ((List.range (a :: A).length).map fun j =>
+          if (a :: A).getD j Slot.ext = x then ind (([] : Label).getD j false) else 0)
+          = (List.range (a :: A).length).map fun _ => (0 : Rat) := by
+        apply List.map_congr_left; intro j _; simp [ind]
+      rw [this, sum_map_zero]; simp
+    | cons b B =>
+      simp only [List.zip_cons_cons, List.count_cons, List.length_cons, List.range_succ_eq_map,
+        List.map_cons, List.sum_cons, List.map_map]
+      push_cast
+      rw [ih B]
+      have e : ((fun j => if (a :: A).getD j Slot.ext = x then ind ((b :: B).getD j false) else 0) ∘ Nat.succ)
+          = fun j => if A.getD j Slot.ext = x then ind (B.getD j false) else 0 := by
+        funext j; simp
+      rw [e]
+      simp only [List.getD_cons_zero]
+      by_cases ha : a = x
+      · subst ha
+        cases b <;> simp [ind] <;> grind
+      · have : ((a, b) == (x, true)) = false := by
+          simp only [beq_eq_false_iff_ne, ne_eq, Prod.mk.injEq, not_and]
+          intro h; exact absurd h ha
+        simp [this, ha]; grind
+
+
+theorem zip_take_right {α β} (A : List α) (B : List β) : A.zip (B.take A.length) = A.zip B := by
+  induction A generalizing B with
+  | nil => simp
+  | cons a A ih =>
+    cases B with
+    | nil => simp
+    | cons b B => simp [ih]
+
+theorem splitLabel_flatten_take (l : Label) (ns : List Nat) :
+    (splitLabel l ns).flatten = l.take ns.sum := by
+  induction ns generalizing l with
+  | nil => simp [splitLabel]
+  | cons n ns ih => simp only [splitLabel, List.flatten_cons, ih, List.sum_cons, List.take_add]
+
+/-- marginal of the stoichiometry of the reaction generated for pattern `w`: positions `(x,i)`
+    among the products whose mapped bit is set, minus those among the substrates -/
+theorem marginal_stoich_isoRxnOf (lv : List (Name × Nat)) (r : BRxn) (lm : List Nat) (w ps : Label)
+    (hw : w ∈ patterns (nSub lv r))
+    (hps : mapSubstratesToProducts (w ++ extOf lv r) lm = .ok ps)
+    (hwf : nProd lv r ≤ lm.length) (x : Name) (i : Nat) :
+    ((labelledAt x (labelsOf lv x) i).map
+        (coefOf (isoRxnOf r (subsOf r) (prodsOf r) (labelsPer lv (subsOf r))
+          (labelsPer lv (prodsOf r)) (extOf lv r) w ps).stoich)).sum
+      = (((slotsFlat lv (prodsOf r)).zip ps).count (Slot.pos x i, true) : Int)
+        - (((slotsFlat lv (subsOf r)).zip w).count (Slot.pos x i, true) : Int) := by
+  have hlen : w.length = nSub lv r := mem_patterns.mp hw
+  have hpslen : ps.length = lm.length := by
+    rw [((msp_ok_iff _ _ _).mp hps).2]; simp
+  simp only [isoRxnOf]
+  have e : coefOf (repack
+      (assignLabels (subsOf r) (splitLabel (w ++ extOf lv r) (labelsPer lv (subsOf r))))
+      (assignLabels (prodsOf r) (splitLabel ps (labelsPer lv (prodsOf r)))))
+      = fun n => ((assignLabels (prodsOf r) (splitLabel ps (labelsPer lv (prodsOf r)))).count n : Int)
+          - ((assignLabels (subsOf r) (splitLabel w (labelsPer lv (subsOf r)))).count n : Int) := by
+    funext n
+    rw [repack_coef, splitLabel_append w _ _ (by rw [hlen]; exact Nat.le_refl _)]
+  rw [e, sum_map_sub_int, sum_count_nodup _ (labelledAt_nodup _ _ _),
+    sum_count_nodup _ (labelledAt_nodup _ _ _)]
+  have h1 := filter_labelledAt lv (prodsOf r)
+    (splitLabel ps (labelsPer lv (prodsOf r))) (by simp [splitLabel_length, labelsPer])
+    (splitLabel_zip_eq (labelsOf lv) (prodsOf r) ps (by
+      show (labelsPer lv (prodsOf r)).sum ≤ _; rw [hpslen]; exact hwf)) x i
+  have h2 := filter_labelledAt lv (subsOf r)
+    (splitLabel w (labelsPer lv (subsOf r))) (by simp [splitLabel_length, labelsPer])
+    (splitLabel_zip_eq (labelsOf lv) (subsOf r) w (by
+      show (labelsPer lv (subsOf r)).sum ≤ _; rw [hlen]; exact Nat.le_refl _)) x i
+  rw [h1, h2, splitLabel_flatten_of_length w _ hlen, splitLabel_flatten_take]
+  have : (labelsPer lv (prodsOf r)).sum = (slotsFlat lv (prodsOf r)).length := (slotsFlat_length _ _).symm
+  rw [this, zip_take_right]
+
+
+/-- the slot pairs in general: (1/pool) · flux · (label arriving at `x` − label leaving `x`) -/
+theorem sum_pairTerm_general (E : Slot → Rat) (f : Rat) (C : Name → Rat) (x : Slot)
+    (hx : x ≠ Slot.ext) (A B : List Slot) (hlen : A.length = B.length) :
+    ((A.zip B).map fun sp => pairTerm E f C x sp.1 sp.2).sum
+      = (1 / C x.base) * f *
+          (((A.zip B).map fun sp => if sp.2 = x then E sp.1 else 0).sum - (A.count x : Nat) * E x) := by
+  induction A generalizing B with
+  | nil =>
+    cases B with
+    | nil => simp; grind
+    | cons b B => simp at hlen
+  | cons a A ih =>
+    cases B with
+    | nil => simp at hlen
+    | cons b B =>
+      simp only [List.length_cons, Nat.add_right_cancel_iff] at hlen
+      simp only [List.zip_cons_cons, List.map_cons, List.sum_cons]
+      rw [ih B hlen]
+      have hdiv : (-1 : Rat) / C x.base = -(1 / C x.base) := by
+        rw [Rat.div_def, Rat.div_def]; grind
+      simp only [pairTerm, hx, ne_eq, not_false_eq_true, and_true, hdiv, List.count_cons]
+      generalize (1 : Rat) / C x.base = K
+      generalize ((A.zip B).map fun sp => if sp.2 = x then E sp.1 else 0).sum = T
+      generalize List.count x A = nA
+      by_cases ha : a = x <;> by_cases hb : b = x
+      all_goals
+        simp only [ha, hb, if_true, if_false, beq_self_eq_true, beq_iff_eq]
+        push_cast
+        grind
+
+theorem count_eq_range_sum (A : List Slot) (x : Slot) (hx : x ≠ Slot.ext) :
+    ((A.count x : Nat) : Rat)
+      = ((List.range A.length).map fun j => if A.getD j Slot.ext = x then (1 : Rat) else 0).sum := by
+  induction A with
+  | nil => simp
+  | cons a A ih =>
+    simp only [List.count_cons, List.length_cons, List.range_succ_eq_map, List.map_cons,
+      List.sum_cons, List.map_map]
+    push_cast
+    rw [ih]
+    have e : ((fun j => if (a :: A).getD j Slot.ext = x then (1 : Rat) else 0) ∘ Nat.succ)
+        = fun j => if A.getD j Slot.ext = x then (1 : Rat) else 0 := by
+      funext j; simp
+    rw [e]
+    simp only [List.getD_cons_zero]
+    by_cases ha : a = x
+    · subst ha; simp; grind
+    · have : (a == x) = false := by simpa using ha
+      simp [this, ha]; grind
+
+theorem sum_ite_mul {α} (l : List α) (c : Prop) [Decidable c] (F : α → Rat) :
+    (l.map fun a => if c then F a else 0).sum = if c then (l.map F).sum else 0 := by
+  by_cases h : c
+  · simp [h]
+  · simp [h, sum_map_zero]
+
 end Mxl.C16
